@@ -677,8 +677,9 @@ fn render_level<'a>(rng: &mut Rng, c: &'a CmdSpec, li: &LevelIntent, st: &Style,
     let long_spelling = |rng: &mut Rng, a: &ArgSpec, r: &mut Rendered| -> String {
         let mut name = a.long.clone().unwrap();
         if !a.aliases.is_empty() && rng.below(100) < st.alias {
-            name = rng.pick(&a.aliases).0.clone();
-            r.features.push("alias.long");
+            let (n, vis) = rng.pick(&a.aliases).clone();
+            name = n;
+            r.features.push(if vis { "alias.long" } else { "alias.long-hidden" });
         }
         if infer && rng.below(100) < st.prefix {
             if let Some(p) = unique_prefix(rng, &name, &longs) {
@@ -690,8 +691,9 @@ fn render_level<'a>(rng: &mut Rng, c: &'a CmdSpec, li: &LevelIntent, st: &Style,
     };
     let short_spelling = |rng: &mut Rng, a: &ArgSpec, r: &mut Rendered| -> char {
         if !a.short_aliases.is_empty() && rng.below(100) < st.alias {
-            r.features.push("alias.short");
-            return rng.pick(&a.short_aliases).0;
+            let (c, vis) = *rng.pick(&a.short_aliases);
+            r.features.push(if vis { "alias.short" } else { "alias.short-hidden" });
+            return c;
         }
         a.short.unwrap()
     };
